@@ -1,6 +1,7 @@
 package checks
 
 import (
+	"bytes"
 	"context"
 	"encoding/json"
 	"fmt"
@@ -194,6 +195,16 @@ func C20(run *core.Run) {
 		distinct.Add(fmt.Sprintf("doc %v %s", d.Fields, d.Kinds))
 		if !reflect.DeepEqual(doc, &back) {
 			run.Violate("doc:roundtrip-differs kinds="+d.Kinds, fmt.Sprintf("%s decodes to a different document", b), map[string]any{"doc": d, "json": string(b)})
+		}
+		// building the limit middlewares from the document leaves the document as it is (the same
+		// object is served by the mux)
+		if i%5 == 0 {
+			before, _ := json.Marshal(doc)
+			_ = mocrelay.BuildMiddlewareFromNIP11(doc)(mocrelay.NewDefaultHandler())
+			after, _ := json.Marshal(doc)
+			if !bytes.Equal(before, after) {
+				run.Violate("doc:changed by BuildMiddlewareFromNIP11", fmt.Sprintf("configured %s, after building the middleware chain %s", before, after), map[string]any{"doc": d})
+			}
 		}
 		// served document equals the configuration
 		if i%9 == 0 {
